@@ -80,7 +80,7 @@ func genLargeProject(seed int64) (*proj.Project, int, int) {
 	r := rand.New(rand.NewSource(seed))
 	for try := 0; ; try++ {
 		libs := 16 + r.Intn(20)
-		p := proj.Generate(r, proj.Opts{InScope: true, Libs: libs, Mains: 2 + r.Intn(2), RootMain: r.Intn(3) == 0,
+		p := proj.Generate(r, proj.Opts{InScope: true, Twins: true, Libs: libs, Mains: 2 + r.Intn(2), RootMain: r.Intn(3) == 0,
 			ChangeP: 0.45, FuncsPer: 3, SmallBody: true})
 		// changed files that receive no tracking point and are not in go/printer layout: the
 		// sequential and the parallel save path must treat them alike (both re-print them)
